@@ -362,13 +362,37 @@ fn power_iteration(
 
     let mut u = vec![0.0f32; a.rows];
     let mut sigma = 0.0f32;
+    let mut restarted = false;
 
-    for _ in 0..max_iter {
+    for iter in 0..max_iter {
         // u = A * v
         for (i, u_val) in u.iter_mut().enumerate() {
             *u_val = (0..a.cols).map(|j| a.get(i, j) * v[j]).sum();
         }
-        let new_sigma = normalize(&mut u);
+        let mut new_sigma = normalize(&mut u);
+
+        // The fixed start vector may be (nearly) orthogonal to every row of A, e.g. for a
+        // matrix whose rows are constant: A*v vanishes although A does not. Start again from
+        // the row of largest norm, whose image under A cannot vanish.
+        if iter == 0 && !restarted {
+            let (best_row, best_norm) = (0..a.rows)
+                .map(|i| {
+                    let n: f32 = (0..a.cols).map(|j| a.get(i, j) * a.get(i, j)).sum();
+                    (i, n.sqrt())
+                })
+                .fold((0, 0.0f32), |acc, x| if x.1 > acc.1 { x } else { acc });
+            if new_sigma < 1e-3 * best_norm {
+                restarted = true;
+                for (j, v_val) in v.iter_mut().enumerate() {
+                    *v_val = a.get(best_row, j);
+                }
+                normalize(&mut v);
+                for (i, u_val) in u.iter_mut().enumerate() {
+                    *u_val = (0..a.cols).map(|j| a.get(i, j) * v[j]).sum();
+                }
+                new_sigma = normalize(&mut u);
+            }
+        }
 
         // v = A^T * u
         for (j, v_val) in v.iter_mut().enumerate() {
@@ -376,8 +400,8 @@ fn power_iteration(
         }
         normalize(&mut v);
 
-        // Check convergence
-        if (new_sigma - sigma).abs() < tol * sigma.max(1.0) {
+        // Check convergence (the initial sigma of 0 is not an estimate to compare with)
+        if iter > 0 && (new_sigma - sigma).abs() < tol * sigma.max(1.0) {
             return Ok((new_sigma, u, v));
         }
         sigma = new_sigma;
